@@ -95,7 +95,7 @@ class V:
         elif k == "ts":
             if not isinstance(v, str) or tsor.parse_text(v) is None:
                 return self.add("timestamp-form", path, "not a canonical timestamp: %r" % (v,))
-            if not tsor.digits_ok(v, kind["precision"], kind["constraint"]):
+            if not kind.get("digits_unjudged") and not tsor.digits_ok(v, kind["precision"], kind["constraint"]):
                 self.add("timestamp-digits", path, "%r has the wrong number of fractional digits for %s/%s" % (
                     v, kind["precision"], kind["constraint"]))
         elif k == "enum":
